@@ -90,6 +90,10 @@ var (
 	captures  []kjob.Capture
 	schedInfo *kjob.SchedInfo
 	curSched  *kjob.Sched
+	// nested-load: the load to run inside the schedule point of the load running on thread nestedTid
+	nestedInner *kjob.Step
+	nestedTid   int
+	nestedIndex int
 )
 
 func installHooks() {
@@ -112,6 +116,34 @@ func installHooks() {
 		hookMu.Unlock()
 	}
 	seccomp.VerifSchedPoint = func() {
+		hookMu.Lock()
+		in := nestedInner
+		if in != nil && gettid() == nestedTid {
+			nestedInner = nil
+		} else {
+			in = nil
+		}
+		savedCaptures, savedSched := captures, curSched
+		hookMu.Unlock()
+		if in != nil {
+			threadsMu.Lock()
+			var t *thread
+			if in.Thread >= 0 && in.Thread < len(threads) {
+				t = threads[in.Thread]
+			}
+			threadsMu.Unlock()
+			if t == nil {
+				emit(kjob.Event{Step: nestedIndex, Ev: "error", Err: "nested load: no such thread"})
+			} else {
+				iev := call(t, *in, nestedIndex)
+				iev.Ev = "inner-load"
+				iev.Idx = in.Thread
+				emit(iev)
+			}
+			hookMu.Lock()
+			captures, curSched = savedCaptures, savedSched
+			hookMu.Unlock()
+		}
 		s := curSched
 		info := &kjob.SchedInfo{TidBefore: gettid(), NNPBefore: nnpOfCurrentThread()}
 		if s != nil {
@@ -203,6 +235,19 @@ func exec(t *thread, c cmd) kjob.Event {
 	switch st.Op {
 	case "load":
 		return doLoad(st, c.index)
+	case "nested-load":
+		hookMu.Lock()
+		nestedInner, nestedTid, nestedIndex = st.Inner, gettid(), c.index
+		hookMu.Unlock()
+		ev := doLoad(st, c.index)
+		hookMu.Lock()
+		if nestedInner != nil {
+			// the outer load never reached the schedule point (failed before): the inner load did not run
+			nestedInner = nil
+			ev.K = -1
+		}
+		hookMu.Unlock()
+		return ev
 	case "supported":
 		ev := kjob.Event{Step: c.index, Ev: "supported", Tid: gettid()}
 		ev.Supported = seccomp.Supported()
@@ -452,7 +497,7 @@ func run(job *kjob.Job) {
 				done <- kjob.Event{Step: i, Ev: "control", Tid: before, TidAfter: after, Migrated: before != after}
 			}()
 			emit(<-done)
-		case "load", "supported", "nnp", "probe", "status", "outer-enosys-thread":
+		case "load", "nested-load", "supported", "nnp", "probe", "status", "outer-enosys-thread":
 			emit(kjob.Event{Step: i, Ev: "begin:" + st.Op, Idx: st.Thread})
 			if st.Thread < 0 {
 				done := make(chan kjob.Event, 1)
